@@ -5,30 +5,22 @@ from props import merge_common as mc
 ALL3 = {"C", "E", "U"}
 
 # one TLC run per line: (label, constants that differ from merge_common.BASE)
+# quick tier: the fixed parameter slices q11_* of OpsMerge.tla (SliceOf), two TLC processes
 QUICK = [
-    ("merge_all cold/sync", dict(Ops={"merge_all"}, Tabs={"plain", "error"}, Flavours={"cold", "sync"}, OTermTimes={2, 3, 5})),
-    ("merge(max_concurrent) cold", dict(Ops={"merge_mc"}, MCs={1, 2}, Tabs={"plain", "short"}, Flavours={"cold"})),
-    ("mapped operators + raising mappers", dict(Ops={"flat_map", "flat_map_indexed", "concat_map"}, Tabs={"error"}, Flavours={"sync"},
-                                                Faults=True, MaxOuter=2, OTermTimes={2, 3, 5})),
-    ("hot inners; never-ending inners", dict(Ops={"merge_all", "merge_mc"}, MCs={2}, Tabs={"pair", "never"}, Flavours={"hot"},
-                                             MaxOuter=2, OTermTimes={2, 5})),
-    ("merge(sources...)", dict(Ops={"merge_srcs"}, Tabs={"short", "error", "never"}, Flavours={"cold", "sync"}, RG=False)),
-    ("dispose instants; outer events at the subscription instant",
-     dict(Ops={"merge_all", "merge_mc"}, MCs={1}, Tabs={"plain"}, Flavours={"sync"}, MaxOuter=2, OTimes={0, 1, 2},
-          OTermTimes={0, 2, 5}, DspTicks={0, 1, 2, 3})),
-    ("cut by take(k) in the middle of a notification",
-     dict(Ops={"merge_all", "merge_mc", "concat_map"}, MCs={1, 2}, Tabs={"short"}, Flavours={"sync"}, RG=False, OTimes={0, 1},
-          OTermTimes={2}, OTerms={"C", "U"}, Takes={1, 2})),
+    ("slices q11_merge", dict(Slices={"q11_merge"})),
+    ("slices q11_sync q11_error q11_mapped q11_hot q11_srcs q11_dispose q11_take",
+     dict(Slices={"q11_sync", "q11_error", "q11_mapped", "q11_hot", "q11_srcs", "q11_dispose", "q11_take"})),
 ]
 
 THOROUGH = [
-    ("merge_all", dict(Ops={"merge_all"}, Tabs={"plain", "short", "error", "never"}, Flavours={"cold", "sync"}, RG=False)),
+    ("merge_all, every token sequence", dict(Ops={"merge_all"}, Tabs={"plain", "error"}, Flavours={"cold", "sync"}, RG=False)),
+    ("merge_all short/never", dict(Ops={"merge_all"}, Tabs={"short", "never"}, Flavours={"cold", "sync"})),
     ("merge_all hot", dict(Ops={"merge_all"}, Tabs={"pair", "error"}, Flavours={"hot"})),
     ("merge(max_concurrent) cold", dict(Ops={"merge_mc"}, MCs={1, 2, 3}, Tabs={"plain", "short", "error", "never"}, Flavours={"cold"})),
     ("merge(max_concurrent) sync", dict(Ops={"merge_mc"}, MCs={1, 2, 3}, Tabs={"plain", "short", "error", "never"}, Flavours={"sync"})),
     ("merge(max_concurrent) queue order", dict(Ops={"merge_mc"}, MCs={1, 2}, Tabs={"plain", "short"}, Flavours={"cold"}, RG=False)),
     ("merge(max_concurrent) hot", dict(Ops={"merge_mc"}, MCs={1, 2}, Tabs={"pair", "short"}, Flavours={"hot"})),
-    ("long table, 4 inners", dict(Ops={"merge_all", "merge_mc"}, MCs={1, 2}, Tabs={"long"}, Flavours={"cold", "sync"}, MaxOuter=4,
+    ("long table, 4 inners", dict(Ops={"merge_all", "merge_mc"}, MCs={2}, Tabs={"long"}, Flavours={"cold", "sync"}, MaxOuter=4,
                                  OTimes={1, 2, 4}, OTermTimes={2, 4, 9})),
     ("mapped + every mapper table", dict(Ops={"flat_map", "flat_map_indexed", "concat_map"}, Tabs={"error"},
                                          Flavours={"cold", "sync"}, Faults=True, FAll=True, MaxOuter=2)),
@@ -40,12 +32,12 @@ THOROUGH = [
     ("outer events at the subscription instant", dict(Ops={"merge_all", "merge_mc", "flat_map"}, MCs={1, 2}, Tabs={"short", "error"},
                                                       Flavours={"cold", "sync"}, OTimes={0, 1, 2}, OTermTimes={0, 1, 3})),
     ("cut by take(k) in the middle of a notification",
-     dict(Ops={"merge_all", "merge_mc", "concat_map", "flat_map"}, MCs={1, 2}, Tabs={"short"}, Flavours={"sync", "cold"},
+     dict(Ops={"merge_all", "merge_mc", "concat_map"}, MCs={1, 2}, Tabs={"short"}, Flavours={"sync", "cold"},
           RG=False, OTimes={0, 1, 2}, OTermTimes={2, 5}, OTerms={"C", "U"}, Takes={1, 2})),
     ("mapper returning a list / constant mapper", dict(Ops={"flat_map", "flat_map_indexed", "concat_map"}, Tabs={"zero"}, Flavours={"cold"},
                                                        Faults=True)),
     ("generated tables", dict(Ops={"merge_all", "merge_mc"}, MCs={1}, Tabs={"gen"}, Flavours={"cold", "sync"}, MaxOuter=2,
-                              OTimes={1, 2}, OTermTimes={1, 2, 4}, GenN=2, GenLen=2, GenTimes={0, 1, 2})),
+                              OTimes={1, 2}, OTermTimes={1, 2, 4}, GenN=2, GenLen=2, GenTimes={0, 1})),
 ]
 SIM = [
     ("simulate: generated tables, 3 inners", dict(Ops={"merge_all", "merge_mc", "flat_map", "concat_map", "flat_map_indexed"}, MCs={1, 2, 3},
@@ -72,7 +64,7 @@ def run(tier):
         ck.note("simulated_scenarios_tie_free_compared", len(det))
         groups += core.group_allowed(det)
     profiles = ("plain", "falsy", "str")
-    mc.replay_groups(ck, groups, profiles)
+    mc.replay_groups(ck, groups, profiles, light=(tier != "quick"))
     mc.binding_selftest(ck, groups)
     ck.nontrivial = sum(1 for g in groups if mc.nontrivial(*g))
     ck.rule = ("outer timelines (<= 3-4 inner arrivals at chosen ticks, ending in completion, error or nothing) x tables of inner "
